@@ -123,11 +123,11 @@ inductive Seps : List Byte → Prop where
 
 theorem rtsAux_seps (seps : List Byte) (hs : Seps seps) :
     ∀ (fuel : Nat) (l : List Byte) (c : Byte) (rest : List Byte) (sk : Bool),
-      seps.length + 1 ≤ fuel → isSpace c = false → c ≠ 47 →
+      seps.length + 1 ≤ fuel → isSpace c = false → c ≠ 47 → c ≠ 92 →
       readTokenSeparatorAux fuel (G l (seps ++ c :: rest) sk) = G (seps.reverse ++ l) (c :: rest) sk := by
   induction hs with
   | blanks sp hsp =>
-    intro fuel l c rest sk hf hc h47
+    intro fuel l c rest sk hf hc h47 h92
     cases fuel with
     | zero => omega
     | succ n =>
@@ -138,9 +138,10 @@ theorem rtsAux_seps (seps : List Byte) (hs : Seps seps) :
       rw [show (G (sp.reverse ++ l) (c :: rest) sk).peekC = (c, G (sp.reverse ++ l) (c :: rest) sk) from peekC_good _ c rest sk]
       dsimp only
       have : (c == 47) = false := by simpa using h47
-      simp [this]
+      have h92' : (c == 92) = false := by simpa using h92
+      simp [this, h92']
   | comment sp body t hsp hb ht ih =>
-    intro fuel l c rest sk hf hc h47
+    intro fuel l c rest sk hf hc h47 h92
     cases fuel with
     | zero => omega
     | succ n =>
@@ -161,13 +162,13 @@ theorem rtsAux_seps (seps : List Byte) (hs : Seps seps) :
       have hlen : t.length + 1 ≤ n := by
         simp only [List.length_append, List.length_cons] at hf
         omega
-      rw [ih n _ c rest sk hlen hc h47]
+      rw [ih n _ c rest sk hlen hc h47 h92]
       simp
 
 /-- **`ReadTokenSeparator` skips every layout**: any sequence of blanks and complete comments in front of a token is
     consumed, the stream is positioned at the token and stays good (all layouts, all positions in the file) -/
 theorem readTokenSeparator_seps (seps : List Byte) (hs : Seps seps) (l : List Byte) (c : Byte) (rest : List Byte) (sk : Bool)
-    (hc : isSpace c = false) (h47 : c ≠ 47) :
+    (hc : isSpace c = false) (h47 : c ≠ 47) (h92 : c ≠ 92 := by decide) :
     readTokenSeparator (G l (seps ++ c :: rest) sk) = G (seps.reverse ++ l) (c :: rest) sk := by
   unfold readTokenSeparator
   have : (G l (seps ++ c :: rest) sk).eof = false := rfl
@@ -176,6 +177,7 @@ theorem readTokenSeparator_seps (seps : List Byte) (hs : Seps seps) (l : List By
   · simp only [List.length_append, List.length_cons]; omega
   · exact hc
   · exact h47
+  · exact h92
 
 /-! ### `CheckRemainingInput` (repaired: skips comments) over every layout -/
 
